@@ -413,6 +413,27 @@ func advSource(shape string, n int) []byte {
 			fmt.Fprintf(&sb, "local a%d = %d\n", i, i)
 		}
 		sb.WriteString("return " + rep("a0 .. (", dd) + "a0" + rep(")", dd))
+	case "labels-and": // flat: n expressions with jump labels each; returns n/500
+		sb.WriteString("local a, b, n = false, 2, 0\n")
+		for i := 1; i <= n; i++ {
+			sb.WriteString("do local x = a and b end\n")
+			if i%500 == 0 {
+				sb.WriteString("n = n + 1\n")
+			}
+		}
+		sb.WriteString("return n")
+	case "labels-if": // flat: n if-statements (3 labels each); returns n
+		sb.WriteString("local n = 0\n")
+		for i := 0; i < n; i++ {
+			sb.WriteString("if n >= 0 then n = n + 1 end\n")
+		}
+		sb.WriteString("return n")
+	case "labels-while": // flat: n loops that run once; returns n
+		sb.WriteString("local n = 0\n")
+		for i := 0; i < n; i++ {
+			sb.WriteString("while n == " + fmt.Sprint(i) + " do n = n + 1 end\n")
+		}
+		sb.WriteString("return n")
 	case "labels":
 		for i := 0; i < n; i++ {
 			fmt.Fprintf(&sb, "::l%d:: goto l%d\n", i, i)
@@ -439,8 +460,21 @@ func mustAccept(shape string, n int) bool {
 		return k <= 200 && k+m+2 < 250
 	case "locals":
 		return n <= 200
+	case "labels-and", "labels-if", "labels-while": // flat code: every jump is short
+		return true
 	}
 	return false
+}
+
+// expectedReturn: what the program returns when it is run (ok = the shape is run at all)
+func expectedReturn(shape string, n int) (string, bool) {
+	switch shape {
+	case "labels-and":
+		return fmt.Sprint(n / 500), true
+	case "labels-if", "labels-while":
+		return fmt.Sprint(n), true
+	}
+	return "", false
 }
 
 func advList(tier string) []advCase {
@@ -460,6 +494,9 @@ func advList(tier string) []advCase {
 		{"localscall", 200001}, {"localscall", 200010}, {"localscall", 200040}, {"localscall", 200048}, {"localscall", 200049},
 		{"localscall", 200060}, {"localscall", 195053}, {"localscall", 201001}, {"localsexpr", 190010}, {"localsexpr", 199003},
 		{"localsexpr", 200020}, {"localsexpr", 200046}, {"localsexpr", 200060}, {"localsexpr", 196040},
+		// more than 131072 jump labels in one flat function (label numbers must not wrap)
+		{"labels-and", 500}, {"labels-and", 32500}, {"labels-and", 33000}, {"labels-and", 66000},
+		{"labels-if", 40000}, {"labels-if", 44000}, {"labels-if", 90000}, {"labels-while", 30000}, {"labels-while", 50000},
 		{"do", 100000}, {"do", 500000}, // linear since /repo 950d344 (was quadratic: 100000 took a minute)
 		{"tables", 1000000}, // C08-3: kills the process
 	}
@@ -482,18 +519,29 @@ func kfAdv(shape string, n int) []string {
 	return nil
 }
 
+// advVerdict turns "a valid program is rejected" and "the loaded function returns something else"
+// into failures
+func advVerdict(shape string, n int, r Result) Result {
+	if mustAccept(shape, n) && r.Load == loadSyntax {
+		r.Load, r.Msg = loadOtherErr, "a program that Lua 5.1 accepts is rejected: "+r.Msg
+	}
+	if want, run := expectedReturn(shape, n); run && r.Load == loadFunction && r.RunOut != "ok:"+want {
+		r.Load, r.Msg = loadOtherErr, "the loaded function must return "+want+" but: "+r.RunOut
+	}
+	return r
+}
+
 func runAdversarial(w *lib.Writer, tier string) {
 	l := advList(tier)
 	rqs := make([]Request, len(l))
 	for i, c := range l {
-		rqs[i] = Request{ID: i, Src: HB(advSource(c.shape, c.n)), LimitMs: advLimitMs}
+		_, run := expectedReturn(c.shape, c.n)
+		rqs[i] = Request{ID: i, Src: HB(advSource(c.shape, c.n)), Run: run, LimitMs: advLimitMs}
 	}
 	res := runAll(rqs, 4)
 	for i, c := range l {
 		r := res[i]
-		if mustAccept(c.shape, c.n) && r.Load == loadSyntax {
-			r.Load, r.Msg = loadOtherErr, "a program within Lua 5.1's limits (200 locals, 250 registers) is rejected: "+r.Msg
-		}
+		r = advVerdict(c.shape, c.n, r)
 		addGoSide(w, In{Kind: "adv", Shape: c.shape, N: c.n}, r, "adversarial/"+c.shape, kfAdv(c.shape, c.n))
 	}
 }
